@@ -1021,6 +1021,30 @@ func ManyRulesN(r *rng.R, n int) *Spec {
 	return s
 }
 
+// ManyShortRules: n productions  cmd : K_i ';'  (two parser states each, so that 530-600 productions stay well below
+// the 2000-state limit): rule numbers beyond nine bits, all of them alternatives of one nonterminal.
+func ManyShortRules(r *rng.R, n int) *Spec {
+	s := &Spec{Family: "many-rules-512", StartDecl: true, KnownLALR: true}
+	s.NTs = []NT{{Name: "prog"}, {Name: "cmd"}}
+	for i := 0; i < n; i++ {
+		s.Terms = append(s.Terms, Term{Name: fmt.Sprintf("KW%03d", i), Decl: DeclToken})
+	}
+	semi := len(s.Terms)
+	s.Terms = append(s.Terms, Term{Lit: ';', Decl: DeclUseOnly})
+	num := len(s.Terms)
+	s.Terms = append(s.Terms, Term{Name: "NUM", Decl: DeclToken})
+	s.Rules = append(s.Rules, Rule{L: 0, Prec: -1}, Rule{L: 0, R: []Sym{{NT: true, I: 0}, {NT: true, I: 1}}, Prec: -1})
+	for i := 0; i < n; i++ {
+		rule := Rule{L: 1, R: []Sym{{I: i}}, Prec: -1}
+		if r.Chance(1, 4) {
+			rule.R = append(rule.R, Sym{I: num})
+		}
+		rule.R = append(rule.R, Sym{I: semi})
+		s.Rules = append(s.Rules, rule)
+	}
+	return s
+}
+
 // ManySymbols: a command language with more than 256 grammar symbols (262-300 keyword tokens, all of them expected in
 // the statement-start state), one command per keyword: symbol ids beyond one byte, table rows wider than 256 columns.
 func ManySymbols(r *rng.R) *Spec {
